@@ -153,6 +153,22 @@ func NoSlashRequest() *Request {
 	return r
 }
 
+// RootPathRequest: collection roots — method path exactly "/" (a ServeMux subtree pattern), with and
+// without a base path. Static route agreement only (C03): at run time a subtree route also answers
+// redirected and unmatched requests of its verb, which the C01 model does not cover.
+func RootPathRequest() *Request {
+	pkg := "rtroot.v1"
+	f := &File{Messages: []*Message{M("Resp", F("ok", 1, "bool")), M("Req", F("note", 1, "string")), M("QReq", F("page", 1, "int32", Query("page", false)))}}
+	f.Services = []*Service{
+		Svc("Items", "/api/v1/items", RPC("List", pkg+".QReq", pkg+".Resp", "GET", "/"), RPC("Create", pkg+".Req", pkg+".Resp", "POST", "/"), RPC("Get", pkg+".QReq", pkg+".Resp", "GET", "/one")),
+		Svc("Bare", "", RPC("Top", pkg+".QReq", pkg+".Resp", "GET", "/")),
+		Svc("Slashy", "/s/", RPC("Both", pkg+".Req", pkg+".Resp", "PUT", "/"), RPC("Trail", pkg+".Req", pkg+".Resp", "PATCH", "/x/")),
+	}
+	r := OneFile("rtroot", pkg, f)
+	r.Tags = []string{"routes", "root-path"}
+	return r
+}
+
 // SharedRouteRequest: two RPCs on one (verb, path) — the OpenAPI document loses one of them.
 func SharedRouteRequest() *Request {
 	pkg := "rtshared.v1"
